@@ -603,7 +603,7 @@ def _plain_typing(t) -> bool:
         if typing.get_origin(x) is typing.Literal:
             return True
         if not typing.get_args(x):
-            return isinstance(x, type) or x is typing.Any or x is None
+            return isinstance(x, type) or x is typing.Any or x is None or getattr(x, "__module__", "") in ("typing", "collections.abc")  # bare `List`, `Dict`, …
         return all(go(a) for a in typing.get_args(x))
 
     return go(t)
